@@ -171,13 +171,13 @@ Failed == \E j \in DOMAIN hist : hist[j].exp = "reject"
 FailIdx == CHOOSE j \in DOMAIN hist : hist[j].exp = "reject" /\ \A k \in 1..(j - 1) : hist[k].exp # "reject"
 AfterFail ==
   IF ~Failed
-  THEN \/ (Len(hist) < 2 /\ \E a \in RareSigma : ExpectAdd(a) /\ AddOp(a, NoFwd))
-       \/ (\E a \in RareSigma : ~ExpectAdd(a) /\ AddOp(a, NoFwd))
+  THEN \/ (Len(hist) < 2 /\ \E a \in Sigma : ExpectAdd(a) /\ AddOp(a, NoFwd))
+       \/ (Len(hist) >= 1 /\ \E a \in Sigma : ~ExpectAdd(a) /\ AddOp(a, NoFwd))
        \/ (\E i \in DOMAIN ins : \E a \in RareSigma : ~ExpectReplace(i, a) /\ ReplaceOp(i, a))
-       \/ (\E a \in RareSigma : Count(ins, a) = 0 /\ ~ExpectAdd(a) /\ DotElem(a))
+       \/ (Len(hist) >= 1 /\ \E a \in RareSigma : Count(ins, a) = 0 /\ ~ExpectAdd(a) /\ DotElem(a))
   ELSE IF Len(hist) = FailIdx           \* exactly one operation of any kind right after the refused call
   THEN \/ (\E a \in RareSigma : AddOp(a, NoFwd))
-       \/ (\E i \in DOMAIN ins : \E a \in RareSigma \cup {ins[i]} : ReplaceOp(i, a))
+       \/ (\E i \in DOMAIN ins : \E a \in RareSigma \cup {ins[i]} : ReplaceOp(i, a))      \* incl. a same-name replace of every child
        \/ (\E i \in DOMAIN ins : RemoveOp(i))
        \/ (\E a \in RareSigma : DotElem(a))
        \/ (\E a \in RareSigma : DotNone(a))
